@@ -47,10 +47,13 @@ type Conn struct {
 	cur       []byte
 	Delivered int // raw bytes handed out so far
 	Timeouts  int
-	Reads     []ReadRec
-	Writes    [][]byte
-	closed    bool
-	remote    addr
+	// DeliveredAtTimeout is Delivered at the moment the last timeout was returned: what the reader had received
+	// when it went back to the network and found nothing
+	DeliveredAtTimeout int
+	Reads              []ReadRec
+	Writes             [][]byte
+	closed             bool
+	remote             addr
 	// WriteDelay is called (outside the lock) before a write is recorded; it may sleep.
 	WriteDelay func(n int)
 	// MaxWrite, when > 0, makes Write accept the data in pieces of at most MaxWrite bytes,
@@ -102,6 +105,7 @@ func (c *Conn) Read(p []byte) (int, error) {
 	if len(c.cur) == 0 {
 		if c.pos >= len(c.steps) {
 			c.Timeouts++
+			c.DeliveredAtTimeout = c.Delivered
 			rec.Timeout = true
 			return 0, timeoutErr{}
 		}
@@ -109,6 +113,7 @@ func (c *Conn) Read(p []byte) (int, error) {
 		c.pos++
 		if st.Idle {
 			c.Timeouts++
+			c.DeliveredAtTimeout = c.Delivered
 			rec.Timeout = true
 			return 0, timeoutErr{}
 		}
@@ -116,6 +121,7 @@ func (c *Conn) Read(p []byte) (int, error) {
 		if len(c.cur) == 0 {
 			// an empty segment is no event at all
 			c.Timeouts++
+			c.DeliveredAtTimeout = c.Delivered
 			rec.Timeout = true
 			return 0, timeoutErr{}
 		}
